@@ -82,7 +82,7 @@ func checkC18(c ModelCase) (o Outcome) {
 	return
 }
 
-var c20Opts = GenOpts{MaxNodes: 5, MultiHalt: true, Flags: true, ReservedFl: true, CacheSize: true, EchoInput: true, Errors: false, Sinks: true}
+var c20Opts = GenOpts{MaxNodes: 5, MultiHalt: true, Flags: true, ReservedFl: true, CacheSize: true, EchoInput: true, Errors: false, Sinks: true, ResetEmpty: true}
 
 var c20Modes = []app.Mode{{Kind: "persist", Backend: "mem"}, {Kind: "persist", Backend: "fs"}, {Kind: "persist", Backend: "pg"}, {Kind: "persist", Backend: "fsbin"}}
 
@@ -103,6 +103,7 @@ func genC20(t *rapid.T) ModelCase {
 	if chancePct(t, 50, "operator") && len(c.Inputs) > 2 {
 		c.ClearTerminateAt = []int{rapid.IntRange(1, len(c.Inputs)-1).Draw(t, "clearat")}
 	}
+	c.First = chancePct(t, 25, "first")
 	return c
 }
 
